@@ -2,6 +2,7 @@ import SLE.Driver.Disasm
 import SLE.Driver.Containers
 import SLE.Driver.Value
 import SLE.Driver.Types
+import SLE.Driver.JsonD
 /-! `sle_driver`: reads `family\tpayload\timpl_answer`, prints `model_answer\toracle_verdict`. -/
 open SLE.Driver
 
@@ -14,7 +15,9 @@ def handleLine (line : String) : String :=
       | "ds" => Containers.handleDs payload impl
       | "word" => Value.handleWord payload impl
       | "fold" => Value.handleFold payload impl
+      | "size" => Value.handleSize payload impl
       | "merge" => Types.handleMerge payload impl
+      | "json" => JsonD.handle payload impl
       | _ => ("unknown-family", "ok")
     m ++ "\t" ++ o
   | _ => "bad-line\tok"
